@@ -46,7 +46,7 @@ EXPECT = [
     ("Excel export with colors=True", "C16"),
     ("ResourceNonDelay rejects a resource", "C18"),
     ("IndicatorResourceIdle no longer removes", "C05"),
-    ("start-time objectives ignore optional", "C14"),
+    ("start-time objectives ignore optional", "C14,C07"),
     ("horizon of a solution is never negative", "C14"),
 ]
 
